@@ -7,6 +7,7 @@ From PyGql Require Import Spec.TraceSpec Exec.TraceModel Proofs.TraceProofs.
 From PyGql Require Import Exec.RuntimeMachine Exec.TraceDeferred Proofs.TraceDeferredProofs.
 From PyGql Require Import Exec.TraceTracer Proofs.TraceTracerProofs.
 From PyGql Require Import Exec.TraceLift Proofs.TraceLiftProofs Exec.TraceRequest Proofs.TraceRequestProofs.
+From PyGql Require Import Exec.TraceListModel Proofs.TraceListProofs.
 
 (* The executable checker used by the correspondence decides the declarative
    specification, for every configuration and every event sequence. *)
@@ -197,6 +198,82 @@ Proof.
 Qed.
 Print Assumptions C16_stage_and_fields.
 
+(* C16_interleave / the specification leave the middleware exits of a
+   runtime-deferred resolver unordered with respect to the resolver body
+   (clause 4, [submit_mode]). That freedom is needed only under the hypothesis
+   that a submitted resolver may start before `submit` returns (real worker
+   threads). In the composed model, where a submitted resolver runs when the
+   schedule completes it, nothing is left open: the events of every resolved
+   field are EXACTLY the word [Wk] --
+     deferred resolver, non-awaiting middlewares:
+        F+0..F+(k-1)  m(n-1)+..m0+  m0-..m(n-1)-  Invoke Return|Raise  F-(k-1)..F-0
+     otherwise (synchronous resolver, or awaiting middlewares):
+        F+0..F+(k-1)  m(n-1)+..m0+  Invoke Return|Raise  m0-..m(n-1)-  F-(k-1)..F-0
+   for every program, schedule, k, n, argument-error marking. *)
+Theorem C16_deferred_words_exact : forall k n aw argerr pr sigma s text oc,
+  1 <= k -> crash_free pr -> NoDup (map nd_path (nodes_prog pr)) -> argerr_ok argerr pr ->
+  is_exec oc = true -> run sigma pr = Some s -> pending (ms s) = [] ->
+  let c := cfg_full k n aw argerr pr text oc in
+  forall nd, In nd (nodes_of c) ->
+  filter (about (nd_path nd)) (stage_pre c ++ deferred_fields k n aw argerr pr s ++ stage_post c)
+  = Wk k n aw nd.
+Proof.
+  intros k n aw argerr pr sigma s text oc H1 H2 H3 H4 H5 H6 H7.
+  exact (deferred_words_exact k n aw argerr pr H2 H3 H4 sigma s text oc H5 H6 H7).
+Qed.
+Print Assumptions C16_deferred_words_exact.
+
+(* Value completion in the generic Executor after commit 60b475c
+   (Exec/TraceListModel.v: complete_value on objects, complete_list_value with
+   items that cannot be completed, the field-level error handler), for an
+   ARBITRARY delay of every deferred resolver, i.e. every completion order:
+   (a) whatever value is completed -- objects, lists, lists of lists to any
+   depth, with failing items anywhere -- every field started underneath fires
+   its on_field_end hook before the value (or its failure) is delivered to
+   whoever waits for it; for the whole operation: before on_execution_end.
+   Needs only that the [nested] flags are the ones the types give (wf). *)
+Theorem C16_list_fields_end_before_delivery : forall delay v, wf v -> forall e p,
+  e <= c_time (complete delay e p v) /\
+  Forall (fun qt => snd qt <= c_time (complete delay e p v)) (c_started (complete delay e p v)).
+Proof. exact list_timely. Qed.
+Print Assumptions C16_list_fields_end_before_delivery.
+
+Theorem C16_operation_hooks_before_execution_end : forall delay fs, wf_fields fs ->
+  c_fail (operation delay fs) = false /\
+  Forall (fun qt => snd qt <= c_time (operation delay fs)) (c_started (operation delay fs)).
+Proof. exact operation_timely. Qed.
+Print Assumptions C16_operation_hooks_before_execution_end.
+
+(* (b) the items after one whose completion raises at once are never started:
+   the result (started fields, times, errors, failure) does not depend on them *)
+Theorem C16_list_items_after_failure_not_started : forall delay pre e p nested x post,
+  raises_now delay e p (lv_len pre) x = true ->
+  complete delay e p (LList nested (lv_app pre (LVCons x post)))
+  = complete delay e p (LList nested (lv_app pre (LVCons x LVNil))).
+Proof. exact list_after_failure. Qed.
+Print Assumptions C16_list_items_after_failure_not_started.
+
+(* (c) a field whose value cannot be completed records exactly one error at its
+   own path (every other error recorded underneath has a strictly longer path);
+   and a list fails exactly when one of the items it reached fails *)
+Theorem C16_list_field_error_once : forall delay (e : nat) (p : path) (k : N) (dfr : bool) (v : lval) (rest : lfields),
+  let q := p ++ [k] in
+  let r := complete delay (if dfr then e + S (delay q) else e) q v in
+  (exists others,
+     f_errs (fields delay e p (LFCons k dfr v rest))
+     = (if c_fail r then [q] else []) ++ others ++ f_errs (fields delay e p rest)
+     /\ ~ In q others)
+  /\ (forall nested its, v = LList nested its ->
+        c_fail r = existsb c_fail (fst (items delay (if dfr then e + S (delay q) else e) q 0%N its))
+                   || match snd (items delay (if dfr then e + S (delay q) else e) q 0%N its) with
+                      | Some _ => true | None => false end).
+Proof.
+  intros delay e p k dfr v rest q r. split.
+  - exact (field_error_once delay e p k dfr v rest).
+  - intros nested its ->. apply list_fails_iff.
+Qed.
+Print Assumptions C16_list_field_error_once.
+
 (* ApolloTracer / TimingTracer at any position i of the instrumentation stack:
    on every trace that satisfies the specification its hooks never fail
    (on_field_end never meets a field that was not started) and the resolver
@@ -341,3 +418,23 @@ Proof.
   { intros nd Hin Hm. cbn in Hin. destruct Hin as [<-|[<-|[<-|[<-|[]]]]]; cbn in Hm |- *; try discriminate; reflexivity. }
   vm_compute. repeat split; reflexivity.
 Qed.
+
+(* the list shapes of seed C16-f: a list of non-null rows `[[I]!]`; row 0 = an
+   object with a deferred sub-field, then an item that cannot be typed; row 1 =
+   an object with a slower deferred sub-field. With the flag the code computes
+   after 60b475c (nested = true) the list is delivered (failing) at time 5,
+   after both sub-fields ended (times 1 and 5), with one error at the list
+   field. With the flag of the seeded change (nested = false, NonNull not
+   unwrapped; not wf) the failure is delivered at time 1 while the sub-field of
+   row 1 only ends at time 5: hooks after on_execution_end. *)
+Example C16_example_list_failure :
+  let delay := fun p : path => match p with [7; 1; 0; 3] => 4%nat | _ => 0%nat end in
+  let obj := LObj (LFCons 3 true LLeaf LFNil) in
+  let rows nested := LList nested (LVCons (LList false (LVCons obj (LVCons LBad LVNil)))
+                                  (LVCons (LList false (LVCons obj LVNil)) LVNil)) in
+  let run nested := fields delay 0%nat [] (LFCons 7 false (rows nested) LFNil) in
+  wf (rows true) /\
+  f_started (run true) = [([7], 0%nat); ([7; 0; 0; 3], 1%nat); ([7; 1; 0; 3], 5%nat)] /\
+  f_time (run true) = 5%nat /\ f_errs (run true) = [[7]] /\
+  f_time (run false) = 1%nat /\ f_started (run false) = f_started (run true).
+Proof. vm_compute. repeat split; auto. all: intros H; try exact I; discriminate H. Qed.
